@@ -677,3 +677,23 @@ Proof. exact Proofs.FnSexCommand.fn_guess_and_format_eq. Qed.
 
 Theorem C15_source_do_sex_columns : do_sex_header = Gen.FnSexCommand.fn_do_sex_columns.
 Proof. exact Proofs.FnSexCommand.fn_do_sex_columns_eq. Qed.
+
+From CNV Require Proofs.FnGaryAutosomes Proofs.FnCnaryAutosomes.
+
+(* GenomicArray.autosomes (skgenome/gary.py), the whole function per row: the table itself when no chromosome has a numeric
+   name, else the rows with a numeric name or an `also` bit -- the filter by the generated row function *)
+Theorem C15_source_gary_autosomes : forall t also na aa,
+  Proofs.FnGaryAutosomes.gary_autosomes t also = filter (Proofs.FnGaryAutosomes.gary_keep t also na aa) t.
+Proof. exact Proofs.FnGaryAutosomes.fn_gary_autosomes_eq. Qed.
+
+(* CopyNumArray.autosomes, the whole override: the model's autosome selection (what center_all centres on and
+   compare_sex_chromosomes compares with) is the filter by the generated override around the generated base-class function *)
+Theorem C15_source_autosomes : forall t build na aa,
+  autosomes t build = filter (Proofs.FnCnaryAutosomes.cnary_keep t build na aa) t.
+Proof. exact Proofs.FnCnaryAutosomes.fn_cnary_autosomes_eq. Qed.
+
+(* ... and a caller's `also` mask is OR-ed with the PAR-X mask when a build is given *)
+Theorem C15_source_autosomes_also : forall has_b also_bit parx base,
+  Gen.FnCnaryAutosomes.fn_cnary_autosomes has_b (Some also_bit) parx true base =
+  base (Some (if has_b then also_bit || parx else also_bit)).
+Proof. exact Proofs.FnCnaryAutosomes.fn_cnary_autosomes_also. Qed.
